@@ -73,7 +73,7 @@ DROP_ATTRS = ("inline", "must_use", "doc", "cfg_attr", "allow", "expect", "track
               "repr", "non_exhaustive")
 
 
-def r2_attrs(text):
+def r2_attrs(text, drop_derives=()):
     m = mask(text)
     eds = []
     for mt in re.finditer(r"#\s*\[", m):
@@ -100,7 +100,7 @@ def r2_attrs(text):
         lp = mt.end() - 1
         rp = match_close(m, lp)
         names = [x.strip() for x in m[lp + 1:rp].split(",") if x.strip()]
-        keep = [x for x in names if x not in DROP_DERIVES]
+        keep = [x for x in names if x not in DROP_DERIVES and x not in drop_derives]
         if keep != names:
             if keep:
                 eds.append(Edit(lp + 1, rp, ", ".join(keep), "R2"))
@@ -597,6 +597,8 @@ def apply_rewrites(text, enabled, opts=None):
                 eds = fn(cur, opts.get("r10_only"))
             elif rid == "R13":
                 eds = fn(cur, opts.get("r13_idents", ()))
+            elif rid == "R2":
+                eds = fn(cur, opts.get("drop_derives", ()))
             else:
                 eds = fn(cur)
             if not eds:
